@@ -17,5 +17,7 @@ out=oracle/SELFCHECK.txt
   for pr in "core 4 3" "look 4 3" "capback 5 3" "nest 4 3" "nestlook 4 3" "utf8 3 2" "icase 2 2" "onechar 2 2" "named 4 3" "vset 3 2" "lit 2 0"; do set -- $pr
     $B/rel/release/mc dump-cases $1 $2 $3 $B/v8_$1.jsonl 2>/dev/null; echo "$1 (size<=$2, haystack<=$3): $(node tools/v8_crosscheck.js $B/v8_$1.jsonl | tail -1)"; rm -f $B/v8_$1.jsonl
   done
+  echo "## class semantics (C12 expressions, depth 1) vs V8"
+  $B/rel/release/mc dump-classes $B/v8_classes.jsonl 2>/dev/null; echo "classes: $(node tools/v8_crosscheck.js $B/v8_classes.jsonl | tail -1)"; rm -f $B/v8_classes.jsonl
 } | tee $out
 grep -q "disagreements" $out && ! grep -E " [1-9][0-9]* disagreements" $out >/dev/null
